@@ -35,7 +35,7 @@ def gen_cases(ctx):
              {"sys": P.witness_single(), "tag": "witness-single"}]
     if CORPUS.exists():
         cases += [{"sys": s, "tag": "corpus"} for s in json.loads(CORPUS.read_text())]
-    n = ctx.pick(150, 1500)
+    n = ctx.pick(100, 1500)
     for i in range(n):
         small = i % 2 == 0
         s = P.gen_system(ctx.rng, nobj=ctx.rng.randint(2, 3) if small else None, valid=(i % 3 != 0),
